@@ -157,14 +157,17 @@ package fans
 //@ func (*CmdFan).SetRpmAvg
 //@   modifies fan.Rpm
 //@ func (*CmdFan).GetPwm
+//@   props C19
 //@   requires cmdWF(fan)
 //@   ensures err != nil ==> fan.Pwm == old(fan.Pwm)
 //@   modifies fan.Pwm, procWorld
 //@ func (*CmdFan).GetRpm
+//@   props C19
 //@   returns (result, err)
 //@   requires cmdWF(fan)
 //@   modifies fan.Rpm, procWorld
 //@ func (*CmdFan).SetPwm
+//@   props C19
 //@   requires cmdWF(fan)
 //@   ghostdo pwmWrites[fan] := pwmWrites[fan] + 1
 //@   ghostdo lastPwm[fan] := pwm
